@@ -530,6 +530,8 @@ impl PoolMap {
         let mut parents: HashSet<ProposalShortId> =
             HashSet::with_capacity(entry.inputs().len() + entry.cell_deps().len());
         let mut cell_ref_parents: HashSet<ProposalShortId> = Default::default();
+        // the transactions which create an input or a cell dep of this transaction
+        let mut creators: HashSet<ProposalShortId> = Default::default();
 
         for input in entry.inputs() {
             let input_pt = input.previous_output();
@@ -540,6 +542,7 @@ impl PoolMap {
 
             let id = ProposalShortId::from_tx_hash(&input_pt.tx_hash());
             if self.links.inner.contains_key(&id) {
+                creators.insert(id.clone());
                 parents.insert(id);
             }
         }
@@ -547,8 +550,19 @@ impl PoolMap {
             let dep_pt = cell_dep.out_point();
             let id = ProposalShortId::from_tx_hash(&dep_pt.tx_hash());
             if self.links.inner.contains_key(&id) {
+                creators.insert(id.clone());
                 parents.insert(id);
             }
+        }
+
+        // A transaction which this one needs (it creates one of the inputs or deps, or is an
+        // ancestor of such a transaction) must never be evicted in favor of this one.
+        if !cell_ref_parents.is_empty() && !creators.is_empty() {
+            let mut needed = self
+                .links
+                .calc_relation_ids(creators.clone(), Relation::Parents);
+            needed.extend(creators);
+            cell_ref_parents.retain(|id| !needed.contains(id));
         }
 
         let ancestors = self
